@@ -25,6 +25,14 @@ fn text_of(v: &Value) -> String {
 const TITLE: &str = "TITLE_MARKER_4711";
 const BODY: &str = "BODY_MARKER_0815";
 const LABEL: &str = "LABEL_MARKER_66"; // a page-label prefix: a string under the key /P of an ordinary dictionary
+// the interactive layer and the logical structure carry strings and streams of their own
+const ANNOT: &str = "ANNOT_CONTENTS_MARKER_21"; // /Contents of a text annotation
+const URI: &str = "http://example.invalid/URI_MARKER_22"; // /URI of a link action (a string inside a nested dictionary)
+const FNAME: &str = "FIELD_NAME_MARKER_23"; // /T of a form field
+const FVALUE: &str = "FIELD_VALUE_MARKER_24"; // /V of a form field
+const SID: &str = "STRUCT_ID_MARKER_25"; // /ID of a structure element: a string under the key /ID of an ordinary dictionary
+const SALT: &str = "STRUCT_ALT_MARKER_26"; // /Alt of a structure element
+const APTXT: &str = "APPEARANCE_MARKER_27"; // text a field is filled with: /V and the content of the widget's appearance stream
 const AUTHOR: &str = "\u{c4}UTHOR_\u{3a9}_9"; // outside PDFDocEncoding: written as UTF-16BE
 
 fn contains(h: &[u8], n: &[u8]) -> bool {
@@ -59,7 +67,12 @@ fn library_view(bytes: &[u8], user: &str, owner: &str, wrong: &str) -> Value {
                 }
             }
             let label = any_string_contains(&doc, &nums, LABEL.as_bytes());
-            (vec![title == TITLE, body, author == AUTHOR, label], perm)
+            let mut found = vec![title == TITLE, body, author == AUTHOR, label];
+            for m in [ANNOT, URI, FNAME, FVALUE, SID, SALT, APTXT] {
+                found.push(any_string_contains(&doc, &nums, m.as_bytes()));
+            }
+            found.push(any_stream_contains(&doc, &nums, APTXT.as_bytes()));
+            (found, perm)
         };
         let mut v = json!({"opened": false, "encrypted": false, "wrongRefused": false, "lockedLeak": false, "userUnlock": false, "ownerUnlock": false,
                            "userMarkers": [false], "ownerMarkers": [false], "permBits": 0, "err": ""});
@@ -114,12 +127,25 @@ fn any_string_contains(doc: &oxidize_pdf::parser::PdfDocument<Cursor<Vec<u8>>>, 
     nums.iter().any(|n| doc.get_object(*n, 0).map(|o| pobj_has(&o, want)).unwrap_or(false))
 }
 
+/// Does the decoded data of some stream object of the (unlocked) document contain `want`?
+fn any_stream_contains(doc: &oxidize_pdf::parser::PdfDocument<Cursor<Vec<u8>>>, nums: &[u32], want: &[u8]) -> bool {
+    nums.iter().any(|n| doc.get_object(*n, 0).ok().and_then(|o| o.as_stream().and_then(|s| doc.decode_stream(s).ok())).map(|d| contains(&d, want)).unwrap_or(false))
+}
+
 fn markers() -> Value {
     json!([{"where": "info", "page": 0, "n": 0, "key": [84, 105, 116, 108, 101], "bytes": TITLE.as_bytes(), "secret": true},
            {"where": "content", "page": 1, "n": 0, "key": [], "bytes": BODY.as_bytes(), "secret": true},
            {"where": "info", "page": 0, "n": 0, "key": [65, 117, 116, 104, 111, 114],
             "bytes": AUTHOR.encode_utf16().flat_map(|u| u.to_be_bytes()).collect::<Vec<u8>>(), "secret": true},
-           {"where": "anywhere", "page": 0, "n": 0, "key": [], "bytes": LABEL.as_bytes(), "secret": true}])
+           {"where": "anywhere", "page": 0, "n": 0, "key": [], "bytes": LABEL.as_bytes(), "secret": true},
+           {"where": "anywhere", "page": 0, "n": 0, "key": [], "bytes": ANNOT.as_bytes(), "secret": true},
+           {"where": "anywhere", "page": 0, "n": 0, "key": [], "bytes": URI.as_bytes(), "secret": true},
+           {"where": "anywhere", "page": 0, "n": 0, "key": [], "bytes": FNAME.as_bytes(), "secret": true},
+           {"where": "anywhere", "page": 0, "n": 0, "key": [], "bytes": FVALUE.as_bytes(), "secret": true},
+           {"where": "anywhere", "page": 0, "n": 0, "key": [], "bytes": SID.as_bytes(), "secret": true},
+           {"where": "anywhere", "page": 0, "n": 0, "key": [], "bytes": SALT.as_bytes(), "secret": true},
+           {"where": "anywhere", "page": 0, "n": 0, "key": [], "bytes": APTXT.as_bytes(), "secret": true},
+           {"where": "anystream", "page": 0, "n": 0, "key": [], "bytes": APTXT.as_bytes(), "secret": true}])
 }
 
 fn run(a: &Args) {
@@ -143,8 +169,33 @@ fn run(a: &Args) {
             doc.set_author(AUTHOR);
             doc.set_subject(""); // an empty string next to the others: under AES it still takes an IV and a padding block
             let mut page = Page::new(200.0, 100.0);
+            let mcid = page.begin_marked_content("P").map_err(|e| e.to_string())?;
             page.text().set_font(Font::Helvetica, 12.0).at(10.0, 50.0).write(BODY).map_err(|e| e.to_string())?;
+            page.end_marked_content().map_err(|e| e.to_string())?;
+            {
+                use oxidize_pdf::annotations::{Annotation, AnnotationType, LinkAnnotation};
+                use oxidize_pdf::forms::{FormManager, TextField, Widget};
+                use oxidize_pdf::geometry::{Point, Rectangle};
+                use oxidize_pdf::structure::{StandardStructureType, StructTree, StructureElement};
+                let rect = |y: f64| Rectangle::new(Point::new(10.0, y), Point::new(110.0, y + 14.0));
+                page.add_annotation(Annotation::new(AnnotationType::Text, rect(5.0)).with_contents(ANNOT));
+                page.add_annotation(LinkAnnotation::to_uri(rect(20.0), URI).to_annotation());
+                let mut fm = FormManager::new();
+                let (w1, w2) = (Widget::new(rect(60.0)), Widget::new(rect(80.0)));
+                let f1 = fm.add_text_field(TextField::new(FNAME).with_value(FVALUE), w1.clone(), None).map_err(|e| e.to_string())?;
+                let f2 = fm.add_text_field(TextField::new("second"), w2.clone(), None).map_err(|e| e.to_string())?;
+                page.add_form_widget_with_ref(w1, f1).map_err(|e| e.to_string())?;
+                page.add_form_widget_with_ref(w2, f2).map_err(|e| e.to_string())?;
+                let mut tree = StructTree::new();
+                let root = tree.set_root(StructureElement::new(StandardStructureType::Document).with_id(SID));
+                let mut para = StructureElement::new(StandardStructureType::P).with_alt_text(SALT);
+                para.add_mcid(0, mcid);
+                tree.add_child(root, para)?;
+                doc.set_struct_tree(tree);
+                doc.set_form_manager(fm);
+            }
             doc.add_page(page);
+            doc.fill_field("second", APTXT).map_err(|e| e.to_string())?;
             doc.set_page_labels(oxidize_pdf::page_labels::PageLabelBuilder::new().prefix_pages(1, LABEL).build());
             doc.set_encryption(DocumentEncryption::new(u2, o2, Permissions::from_bits(p as u32), strength));
             doc.to_bytes_with_config(crate::c03::config_of(&c2["cfg"])).map_err(|e| e.to_string())
